@@ -177,6 +177,11 @@ class NodePathParser(object):
         elif self.current_token != '':
             raise unexpected_char_error(self.current_token[0], self.pos - len(self.current_token))
 
+        else:
+            # The expression stops inside a subset specifier or a slice, or
+            # has no path component at all
+            raise PathExprParsingError('incomplete path expression: {!r}'.format(path_expr))
+
         return self.node_path
 
     def handle_left_bracket(self):
